@@ -1078,7 +1078,7 @@ class Mesh:
 
         # Always creates a mesh with duplicate verticies. Use validate=False to
         # suppress confusing logger DEBUG messages.
-        return cls(p, t, validate=False)
+        return type(m)(p, t, validate=False)
 
     @staticmethod
     def build_entities(t, indices, sort=True):
